@@ -27,8 +27,8 @@ from .. import tlc, evidence, common, stategraph
 from ..sendlog_world import (Rig, Machinery, payload, wire, api, api_type, CONTROL_TABLE, LETTERS, PUNCT, WIRE, ESCAPE)
 
 sys.setrecursionlimit(100000)
-INVS = ['PeerGotExactly', 'ReturnValue', 'LogSendExact', 'LogReadExact', 'DeliveredExact', 'LogAllInterleaved',
-        'EveryWriteFlushed', 'LogTypeIsApiType', 'OnlyConfiguredLogs']
+INVS = ['PeerGotExactly', 'ReturnValue', 'NoSpuriousFailure', 'FailedSendPrefix', 'LogSendExact', 'FailedSendLogged', 'LogReadExact',
+        'TakenExact', 'DeliveredExact', 'LogAllInterleaved', 'EveryWriteFlushed', 'LogTypeIsApiType', 'OnlyConfiguredLogs']
 TRANSPORTS = ('pty', 'fd', 'popen', 'socket')
 NEEDED = {
     'pty': {'Send', 'SendLine', 'Write', 'WriteLines', 'SendControl', 'SendEof', 'SendIntr', 'ReadDelivered',
@@ -53,7 +53,20 @@ def consts(transport, history, maxops, small, bug='none', logcfgs='LogCfgsAll', 
         c = [('Payloads', '<- AllPayloads'), ('ReadPayloads', '<- ReadAll'), ('KeyPayloads', '<- KeysAll'),
              ('Lists', '<- ListsAll'), ('Controls', '<- ControlsAll'), ('LogCfgs', '<- %s' % logcfgs)]
     return c + [('Modes', '<- ModesAll'), ('Transport', '= "%s"' % transport), ('MaxOps', '= %d' % maxops),
-                ('History', '= %s' % ('TRUE' if history else 'FALSE')), ('Bug', '= "%s"' % bug)]
+                ('History', '= %s' % ('TRUE' if history else 'FALSE')), ('Bug', '= "%s"' % bug), ('Env', '= FALSE'), ('Aw', '= FALSE'), ('MaxCarry', '= 0')]
+
+
+def env_consts(transport, part, history, maxops, bug='none', carry=1, logcfgs='LogCfgsEnv'):
+    """two more configurations of the same module.  part 'life': reads ending in TIMEOUT / EOF between the sends, the peer
+    shutting its output side down / going away, the caller closing the object, sends that fail (payloads: small, larger than
+    every buffer).  part 'await': awaited reads with cancellation / timeout, output arriving between two calls, mixed with
+    blocking reads and small sends.  bytes and utf-8, all three logs."""
+    life = part == 'life'
+    return [('Payloads', '<- EnvPayloads' if life else '<- AwPayloads'), ('ReadPayloads', '<- EnvRead'), ('KeyPayloads', '<- EnvRead'),
+            ('Lists', '<- EnvLists' if life else '<- AwLists'),
+            ('Controls', '<- NoControls'), ('LogCfgs', '<- %s' % logcfgs), ('Modes', '<- ModesEnv'), ('Transport', '= "%s"' % transport),
+            ('MaxOps', '= %d' % maxops), ('History', '= %s' % ('TRUE' if history else 'FALSE')), ('Bug', '= "%s"' % bug),
+            ('Env', '= %s' % ('TRUE' if life else 'FALSE')), ('Aw', '= %s' % ('FALSE' if life else 'TRUE')), ('MaxCarry', '= %d' % carry)]
 
 
 # ---------------------------------------------------------------- walks over the state graph
